@@ -156,8 +156,8 @@ theorem commitDItem_ok (hw : WF t₀) (hi : DTxOK t₀ tx₀) (hs : DStatic t₀
         · exact .inr ((Prod.mk.inj e).1.trans (hoh.symm.trans hxh.symm))
         · exact .inl ⟨o', m, hm⟩
       have h0 := h.drop (.inl (by simp)) hi hmem
-      obtain ⟨ep, ek⟩ := h.dOld x hx o hot hxh.symm
-      have h1 := h0.replace (d := x) (d' := { o with ver := n.ver, body := n.body }) hx hxh.symm ep ek
+      obtain ⟨ep, ek, em⟩ := h.dOld x hx o hot hxh.symm
+      have h1 := h0.replace (d := x) (d' := { o with ver := n.ver, body := n.body }) hx hxh.symm ep ek em
         (by
           intro d0 hd0 e
           have : d0 = o := mem_unique hw.dKeys hd0 hot (e.trans hxh)
